@@ -129,6 +129,9 @@ type tokenReadChan struct {
 	stanzaName xml.Name
 	c          chan xmlstream.TokenReadCloser
 	ctx        context.Context
+
+	// done is closed when the sender stops waiting for a response.
+	done chan struct{}
 }
 
 // A Session represents an XMPP session comprising an input and an output XML
@@ -622,16 +625,21 @@ func handleInputStream(s *Session, handler Handler) (err error) {
 			}:
 				verifYield("serve.handed", id)
 				<-readerChan.c
+				verifYield("serve.resume", id)
+				// Consume the rest of the stream before continuing the loop.
+				_, err = xmlstream.Copy(discard, inner)
+				if err != nil {
+					return err
+				}
+				return nil
 			case <-readerChan.ctx.Done():
 				verifYield("serve.ctxdone", id)
+			case <-readerChan.done:
+				verifYield("serve.ctxdone", id)
 			}
-			verifYield("serve.resume", id)
-			// Consume the rest of the stream before continuing the loop.
-			_, err = xmlstream.Copy(discard, inner)
-			if err != nil {
-				return err
-			}
-			return nil
+			// Nobody is waiting for this response anymore (the context was canceled
+			// or sending the request failed), so treat it like any other response
+			// that we were not expecting and pass it to the handler.
 		}
 	}
 
@@ -1035,12 +1043,14 @@ func isStanzaEmptySpace(name xml.Name) bool {
 
 func (s *Session) sendResp(ctx context.Context, id string, payload xml.TokenReader, start xml.StartElement) (xmlstream.TokenReadCloser, error) {
 	c := make(chan xmlstream.TokenReadCloser)
+	done := make(chan struct{})
 
 	s.sentStanzaMutex.Lock()
 	s.sentStanzas[id] = tokenReadChan{
 		stanzaName: start.Name,
 		c:          c,
 		ctx:        ctx,
+		done:       done,
 	}
 	s.sentStanzaMutex.Unlock()
 	verifYield("resp.registered", id)
@@ -1048,6 +1058,7 @@ func (s *Session) sendResp(ctx context.Context, id string, payload xml.TokenRead
 		s.sentStanzaMutex.Lock()
 		delete(s.sentStanzas, id)
 		s.sentStanzaMutex.Unlock()
+		close(done)
 		verifYield("resp.deregistered", id)
 	}()
 
